@@ -78,6 +78,7 @@ def parseOp (cfgs : List Cfg) (s : String) : Option Op :=
   | ["C", ci, n, now] => do pure (.create (← cfgs[← ci.toNat?]?) (List.replicate (← n.toNat?) 0) (← now.toInt?))
   | ["W", ci, now] => do pure (.wait (← cfgs[← ci.toNat?]?) (← now.toInt?))
   | ["D", ci, now, _] => do pure (.wait (← cfgs[← ci.toNat?]?) (← now.toInt?))
+  | ["G", ci, now] => do pure (.wait (← cfgs[← ci.toNat?]?) (← now.toInt?))   -- the registration CAS after an EARLIER successful poll
   | ["O", ci, now] => do pure (.reconcileOwned (← cfgs[← ci.toNat?]?) (← now.toInt?))
   | ["R", ci, now] => do pure (.reconcileOthers (← cfgs[← ci.toNat?]?) (← now.toInt?))
   | ["S", ci, b] => do pure (.stopping (← cfgs[← ci.toNat?]?) (b == "1"))
@@ -89,6 +90,8 @@ structure Meta where
   t0 : Int
   t1 : Int
   tvis : Option Int := none
+  /-- `W`: poll and registration CAS with nothing in between (the poll reads the ring the CAS is applied to) -/
+  pollHere : Bool := false
 
 def parseOpMeta (cfgs : List Cfg) (s : String) : Option (Op × Meta) :=
   match s.splitOn "@" with
@@ -99,7 +102,7 @@ def parseOpMeta (cfgs : List Cfg) (s : String) : Option (Op × Meta) :=
       let tvis := match body.splitOn "," with
         | ["D", _, _, tv] => tv.toInt?
         | _ => none
-      pure (op, { t0 := ← a.toInt?, t1 := ← b.toInt?, tvis := tvis })
+      pure (op, { t0 := ← a.toInt?, t1 := ← b.toInt?, tvis := tvis, pollHere := body.startsWith "W," })
     | _ => none
   | _ => none
 
@@ -187,9 +190,12 @@ def handleHist (f : List String) : String × String × String :=
         let opl := oplm.map (·.1)
         if opl.length != obl.length then ("bad-lengths", "-", "-") else
         -- model replay
-        let (_, mOut) := opl.foldl (fun (acc : PDesc × List String) op =>
-          let r := step acc.1 op
-          let d' := C15.apply acc.1 op
+        let (_, mOut) := oplm.foldl (fun (acc : PDesc × List String) (opm : Op × Meta) =>
+          let op := opm.1
+          -- a wait whose poll is part of the step gives up (context error) while the partition does not exist
+          let blocked := match op with | .wait c _ => opm.2.pollHere && !pollSees acc.1 c | _ => false
+          let r := if blocked then .error .ctx else step acc.1 op
+          let d' := if blocked then acc.1 else C15.apply acc.1 op
           (d', acc.2 ++ [resName op r ++ "@" ++ showPDescOpt true d'])) (d0, [])
         let mStr := "#".intercalate mOut
         let diff := if mStr == obs then "-" else
@@ -238,7 +244,7 @@ def parseLoopItem (l : Loop) (s : String) : Option (List Act × Option Op × Met
       match body.splitOn "," with
       | ["S", n, na, nt] => do
         let nt ← nt.toInt?
-        pure ([.start 0 (List.replicate (← n.toNat?) 0) (← na.toInt?) (nt, nt)], none, m, false)
+        pure ([.poll 0, .start 0 (List.replicate (← n.toNat?) 0) (← na.toInt?) (nt, nt)], none, m, false)
       | ["A", to, na, nt] => do
         let nt ← nt.toInt?; let op := Op.change l.cfg.pid (← to.toNat?) (← na.toInt?)
         pure ([.event 0 (.actor (← to.toNat?) (← na.toInt?)), .event 0 (.tick nt nt)], some op, m, false)
